@@ -370,7 +370,20 @@ def handlerPermission : String → Option String
   | "types" => some "types"                      -- typequeryhandler.cpp:70
   | "status" => some "status/query"              -- statushandler.cpp:93
   | "console" => some "console"                  -- consolehandler.cpp:81
+  | "cfgpackages" => some "config/query"         -- configpackageshandler.cpp:51 (GET /v1/config/packages)
+  | "cfgcreate" => some "config/modify"          -- configpackageshandler.cpp:101 (POST /v1/config/packages/<name>)
+  | "debug" => some "debug"                      -- mallocinfohandler.cpp:41
+  | "act:shutdown-process" => some "actions/shutdown-process"   -- actionshandler.cpp:52, 72: an action without types
+  | "act:restart-process" => some "actions/restart-process"
+  | "act:generate-ticket" => some "actions/generate-ticket"
   | _ => none
+
+/-- The handlers that call `CheckPermission(user, perm)` WITHOUT a filter pointer (filterutility.cpp:213 `filter &&
+    permissionFilter`: the filters of the matching entries are then not even collected): consolehandler.cpp:81,
+    config*handler.cpp, mallocinfohandler.cpp:41, actionshandler.cpp:72 (actions without types).  They have no target
+    object on which a filter could be evaluated; a matching entry grants, filtered or not. -/
+def bareCheck (kind : String) : Bool :=
+  kind == "console" || kind == "cfgpackages" || kind == "cfgcreate" || kind == "debug" || kind.startsWith "act:"
 
 /-- What the model and the harness assume about the permission checks found in the source (the generated
     table `Gen.handlerPermissions`: normalised expressions, non-literal operands as `<>`): the strings used for
@@ -378,13 +391,45 @@ def handlerPermission : String → Option String
     handlers), their order and the files they live in are of no concern. -/
 def usedPermissionExprs : List String :=
   ["objects/query/<>", "objects/modify/<>", "objects/delete/<>", "actions/<>", "templates/query/<>",
-   "variables", "types", "status/query", "console"]
+   "variables", "types", "status/query", "console", "objects/create/<>", "config/query", "config/modify", "debug"]
 
 def permissionTableOk (table : List String) : Bool :=
   usedPermissionExprs.all table.contains && table.all (· != "")
 
 /-- CheckPermission at the head of these handlers: no matching entry ⇒ the request fails (404). -/
 def grantStatus (u : User) (perm : String) : Nat := if hasPermission u perm then 200 else 404
+
+/-! ## Further entry points (round 3) -/
+
+/-- actionshandler.cpp:47-58 with the action's registered types (apiactions.cpp:27-40: `Service;Host`, for
+    remove-comment / remove-downtime also `Comment` / `Downtime`) in `std::set` order. -/
+def actionQDT (action : String) (types : List String) : QD :=
+  { types := types, permission := "actions/" ++ action, cfgProvider := true }
+
+/-- ApiActions::GetSingleObjectByNameUsingPermissions (apiactions.cpp:632-655), the by-name lookup execute-command
+    uses for the endpoint, the command, the user and the notification it is told to use: the query
+    `{type: T, lower(T): name}` (:634-636), one type, permission `objects/query/T` (:638-640). -/
+def lookupQuery (type name : String) : Query :=
+  { single := [(type, name)], type := some type, typeValid := true }
+
+/-- :644-655: any exception of GetFilterTargets and an empty result are "no such object"; otherwise `objs.at(0)`. -/
+def lookupByPermission (u : User) (type name : String) (inv : Inventory) : Option Obj :=
+  match (filterTargets u (handlerQD "query" type) (lookupQuery type name) inv).result with
+  | .ok (o :: _) => some o
+  | .ok [] => none
+  | .error _ => none
+
+/-- modifyobjecthandler.cpp:56-64, 106-150: the attributes are applied to exactly the objects GetFilterTargets
+    returned (one `ModifyAttribute` per object and attribute); when it throws nothing is touched. -/
+def modifyChanged (u : User) (type : String) (pathName : Option String) (q : Query) (inv : Inventory) : List Obj :=
+  match handlerTargets u "modify" type pathName q inv with
+  | .ok objs => objs
+  | .error _ => []
+
+/-- createobjecthandler.cpp:44 `FilterUtility::CheckPermission(user, "objects/create/" + type->GetName())` — no filter
+    pointer: a matching entry grants the creation of ANY object of the type, whether or not it carries a filter
+    (finding F-C18b).  The object is then created from the request (:47-150). -/
+def createGranted (u : User) (type : String) : Bool := hasPermission u ("objects/create/" ++ type)
 
 /-! ## Authentication (lib/remote/apiuser.cpp:13-58): to which ApiUser is a request attributed? -/
 
